@@ -38,6 +38,10 @@ type PubOptions struct {
 	// MaxLivingAgeZero: Document.MaxLivingAge is set to 0 ("never dead
 	// without a death event") before publishing.
 	MaxLivingAgeZero bool `json:"max_living_age_zero,omitempty"`
+	// NameLimit: file-name length limit of the simulated file system (the
+	// library's own DirectoryFileWriter meets ENAMETOOLONG at 255 bytes on
+	// every common file system). 0 = no limit. Not a library option.
+	NameLimit int `json:"name_limit,omitempty"`
 }
 
 func (o PubOptions) lib() *html.PublishShowOptions {
@@ -62,6 +66,10 @@ type PubVariant struct {
 	// document when Prior < 0) and the publish under test share one
 	// *html.PublishShowOptions value.
 	SameOptions bool `json:"same_options,omitempty"`
+	// Interleaved (with SameOptions): the other publisher is only CREATED
+	// (html.NewPublisher) after the publisher under test and before the
+	// latter publishes; it never publishes itself.
+	Interleaved bool `json:"interleaved,omitempty"`
 	// Edits: API edits applied to the shared Document value between the
 	// earlier publish and the publish under test (SameObject variants).
 	Edits []PubEdit `json:"edits,omitempty"`
@@ -146,7 +154,10 @@ type Disk struct {
 	// returnedAt: number of WriteFile calls that had started when Publish
 	// returned (-1 while it is running)
 	returnedAt int
+	nameLimit  int
 }
+
+var errNameTooLong = fmt.Errorf("simulated disk: file name too long")
 
 //go:norace
 func (d *Disk) markReturned() { d.returnedAt = d.calls }
@@ -184,6 +195,11 @@ func componentKind(c core.Component) string {
 func (d *Disk) WriteFile(f *core.File) error {
 	simrt.Yield("disk:write") // a slow disk is just more scheduling points
 	k, fail := d.next()
+	if !fail && d.nameLimit > 0 && len(f.Name) > d.nameLimit {
+		d.record(k, f.Name, componentKind(f.Component), nil, errNameTooLong.Error())
+		simrt.Yield("disk:write+")
+		return errNameTooLong
+	}
 	if fail {
 		d.record(k, f.Name, componentKind(f.Component), nil, errDisk.Error())
 		simrt.Yield("disk:write+")
@@ -239,7 +255,7 @@ func runPublishWith(t *testing.T, cr *CaseResult, prop string, doc *gedcom.Docum
 	if opts.MaxLivingAgeZero {
 		doc.MaxLivingAge = 0
 	}
-	disk := &Disk{faults: faults, returnedAt: -1}
+	disk := &Disk{faults: faults, returnedAt: -1, nameLimit: opts.NameLimit}
 	run := &pubRun{}
 	var perr error
 	if lib == nil {
@@ -611,6 +627,8 @@ func hostileGraph(r *rand.Rand, tier string) *Graph {
 			{"St. Mary's, Kent, England", "St Mary s, Kent, England"},
 			{"Köln, Germany", "K ln, Germany", "K-ln, Germany"},
 			{"New York, USA", "new york, usa", "New York,, USA"},
+			{"Malmo, Sweden", "Malmö, Sweden", "Malmô, Sweden"},
+			{"Aarhus, Denmark", "Åarhus, Denmark", "Áarhus, Denmark"},
 		})
 		k := 0
 		for _, p := range g.People {
@@ -689,6 +707,7 @@ func genPublishCase(prop, tier string, r *rand.Rand) *Case {
 				if r.IntN(2) == 0 {
 					v.Prior = 1
 				}
+				v.Interleaved = r.IntN(2) == 0
 			} else {
 				v.RealWriter = true
 				v.Jobs = pick(r, []int{2, 8, 16})
@@ -787,7 +806,44 @@ func runPublishCase(t *testing.T, c *Case) *CaseResult {
 				continue
 			}
 			var lib *html.PublishShowOptions
-			if v.SameOptions {
+			if v.SameOptions && v.Interleaved {
+				lib = cfg.Options.lib()
+				priorText := "0 HEAD\n0 @X1@ INDI\n1 NAME Other /Otherson/\n1 DEAT\n2 DATE 1 Jan 1800\n0 TRLR\n"
+				if v.Prior >= 0 && v.Prior < len(c.Docs) {
+					priorText = c.Docs[v.Prior]
+				}
+				other, err := decode(priorText)
+				if err != nil {
+					continue
+				}
+				if cfg.Options.MaxLivingAgeZero {
+					doc.MaxLivingAge = 0
+				}
+				sim := v.Sim
+				labels := map[unsafe.Pointer]int{}
+				labelDoc(labels, doc, 0)
+				sim.Labels = labels
+				sim.Today = parseToday(c.Today)
+				disk := &Disk{returnedAt: -1}
+				var perr error
+				res, _ := runSim(t, cr, prop, sim, func() {
+					pa := html.NewPublisher(doc, lib)
+					html.NewPublisher(other, lib) // created in between, never published
+					perr = pa.Publish(disk, v.Jobs)
+					disk.markReturned()
+				})
+				run = &pubRun{res: res, err: perr, events: disk.events, files: map[string][]byte{}, kinds: map[string]string{}}
+				for _, e := range disk.events {
+					if e.Err == "" {
+						if _, ok := run.files[e.Name]; ok {
+							run.dups = append(run.dups, [2]string{e.Name, "again"})
+						}
+						run.files[e.Name] = e.Data
+						run.kinds[e.Name] = e.Kind
+					}
+				}
+				cr.count("history.interleaved_publishers", 1)
+			} else if v.SameOptions {
 				lib = cfg.Options.lib()
 				priorText := "0 HEAD\n0 TRLR\n"
 				if v.Prior >= 0 && v.Prior < len(c.Docs) {
@@ -801,7 +857,9 @@ func runPublishCase(t *testing.T, c *Case) *CaseResult {
 					cr.count("history.same_options_object", 1)
 				}
 			}
-			run, _ = runPublishWith(t, cr, prop, doc, cfg.Options, lib, v.RealWriter, v.Jobs, v.Sim, c.Today, nil)
+			if run == nil {
+				run, _ = runPublishWith(t, cr, prop, doc, cfg.Options, lib, v.RealWriter, v.Jobs, v.Sim, c.Today, nil)
+			}
 			if v.RealWriter {
 				cr.count("disk.real_directory_writer", 1)
 			}
